@@ -29,6 +29,7 @@ def main():
     try:
         demos = [f for f in glob.glob(os.path.join(out, "*_test.go"))]
         sub = os.environ.get("SEEDED_DEMO_DIR", "")
+        os.makedirs(os.path.join(wt, sub), exist_ok=True)
         for d in demos:
             shutil.copy(d, os.path.join(wt, sub))
         demo_cmd = meta["demo_cmd"].replace("/tmp/seeded/wt-" + sid.lower(), wt)
